@@ -1,10 +1,12 @@
-//! Bounded: 3 slotmap keys, <= 2 symbolic unions from the empty structure, then one more call under contract.
-use slotmap::{DefaultKey, KeyData};
+//! Bounded: 4 keys, <= 3 symbolic unions from the empty structure, then one more call under contract.  The map behind UnionFind is the
+//! array-backed CONTRACT DOUBLE of slotmap::SecondaryMap (shims/slotmap); the code of find / union / same_set is the real file, whatever
+//! its implementation -- so a REWRITTEN find (which the Verus proof cannot follow) is still decided here, with a counterexample.
+use slotmap::DefaultKey;
 
 use super::*;
 
-const D: usize = 3;
-fn key(i: usize) -> DefaultKey { DefaultKey::from(KeyData::from_ffi((1u64 << 32) | i as u64)) }
+const D: usize = 4;
+fn key(i: usize) -> DefaultKey { DefaultKey(i as u8) }
 fn idx() -> usize { let x: usize = kani::any(); kani::assume(x < D); x }
 
 #[derive(Clone, Copy)]
@@ -62,7 +64,7 @@ fn union_keeps_first_representative<const N: usize>() {
     kani::assert(uf.same_set(key(c), key(d)) == rel.r[c][d], "C17:union_joins_exactly_the_two_classes");
 }
 
-macro_rules! inst { ($($name:ident = $f:ident, $n:literal;)*) => { $( #[kani::proof] #[kani::unwind(5)] pub(crate) fn $name() { $f::<$n>() } )* } }
+macro_rules! inst { ($($name:ident = $f:ident, $n:literal;)*) => { $( #[kani::proof] #[kani::unwind(7)] pub(crate) fn $name() { $f::<$n>() } )* } }
 inst! {
     uf_same_set_is_closure_n0 = same_set_is_closure, 0;
     uf_same_set_is_closure_n1 = same_set_is_closure, 1;
@@ -73,4 +75,7 @@ inst! {
     uf_union_keeps_first_representative_n0 = union_keeps_first_representative, 0;
     uf_union_keeps_first_representative_n1 = union_keeps_first_representative, 1;
     uf_union_keeps_first_representative_n2 = union_keeps_first_representative, 2;
+    uf_same_set_is_closure_n3 = same_set_is_closure, 3;
+    uf_find_is_canonical_n3 = find_is_canonical, 3;
+    uf_union_keeps_first_representative_n3 = union_keeps_first_representative, 3;
 }
